@@ -3,7 +3,9 @@ import JRV.Model.Json
 import JRV.Model.Client
 import JRV.Model.Backend
 import JRV.Model.Payload
+import JRV.Model.Headers
 import JRV.Generated
 import JRV.Driver
 import JRV.Properties.C06
 import JRV.Properties.C14
+import JRV.Properties.C18
